@@ -1,4 +1,5 @@
 SPECIFICATION MCSpec
+CONSTANT DevNoCenturyRule = FALSE
 CONSTANT Mode = "quick"
 CONSTANT BlockLen = 1100
 INVARIANT Inverse
